@@ -8,14 +8,14 @@ Variable cap : Z.
 Variable ucfg : bool.
 Variable daf : bool.
 
-Notation step := (Shutdown.step cap ucfg daf).
-Notation apply := (Shutdown.apply cap ucfg daf).
-Notation run_from := (Shutdown.run_from cap ucfg daf).
-Notation run := (Shutdown.run cap ucfg daf).
-Notation prompt_from := (Shutdown.prompt_from cap ucfg daf).
-Notation prompt := (Shutdown.prompt cap ucfg daf).
-Notation step_thread := (Shutdown.step_thread cap daf).
-Notation work_step := (Shutdown.work_step daf).
+Notation step := (Shutdown.step cap ucfg daf true).
+Notation apply := (Shutdown.apply cap ucfg daf true).
+Notation run_from := (Shutdown.run_from cap ucfg daf true).
+Notation run := (Shutdown.run cap ucfg daf true).
+Notation prompt_from := (Shutdown.prompt_from cap ucfg daf true).
+Notation prompt := (Shutdown.prompt cap ucfg daf true).
+Notation step_thread := (Shutdown.step_thread cap daf true).
+Notation work_step := (Shutdown.work_step daf true).
 Notation step_run := (Shutdown.step_run ucfg).
 Notation connect := (Shutdown.connect ucfg).
 
